@@ -1,5 +1,6 @@
 import PyramidModel.Prelude
 import PyramidModel.Lemmas.StaticSpec
+import PyramidModel.Lemmas.StaticOv
 import PyramidModel.StaticUrl
 /-! Driver for C16: one JSON case per line, stateful (the file-system listing is set by an `fs` line).
 Texts travel as lists of code points.
@@ -45,6 +46,7 @@ def outJson : Outcome → Json
   | .notFound => Json.mkObj [("out", "notfound")]
   | .redirect => Json.mkObj [("out", "redirect")]
   | .isADirectory p => Json.mkObj [("out", "isdir"), ("path", cod p)]
+  | .valueError => Json.mkObj [("out", "valueerror")]
   | .file p e v => Json.mkObj [("out", "file"), ("path", cod p),
       ("enc", match e with | some s => Json.str s | none => Json.null), ("vary", toJson v)]
 
@@ -80,6 +82,12 @@ def parsePairsT (j : Json) : Except String (List (Text × Text)) := do
     match p with
     | .arr #[k, v] => do pure ((← tOf k), (← tOf v))
     | _ => throw "pair expected"
+
+/-- executable form of the extended containment: strictly inside the root, or inside / equal to what an override was
+declared with -/
+def inDeclared (w : OvView) (p : Text) : Bool :=
+  underB (if w.v.pkg then pkgRoot w.v else w.v.docroot) p ||
+  w.ovs.any fun o => p == o.src.osPath [] || underB o.src.home p
 
 def staticUrlOp (j : Json) : Except String Json := do
   let adds ← parsePairsT (← getField j "adds")
@@ -166,21 +174,33 @@ def step (es : Entries) (j : Json) : Except String (Entries × Json) := do
         let l : List String ← fromJson? x
         pure (some l)
     let v : View := { pkg := pkg, base := base, docroot := docroot, index := index, encs := encs }
+    -- asset overrides declared for the view's package, most recent first: [[path, "fs"|"pkg", base, prefix], …]
+    let ovs : List Override ← match j.getObjVal? "ovs" with
+      | .ok (.arr xs) => xs.toList.mapM fun x =>
+        match x with
+        | .arr #[pa, .str kind, ba, pf] => do
+          let path ← tOf pa
+          let b ← tOf ba
+          let pfx ← tOf pf
+          pure { path := path, src := if kind = "fs" then Source.fs pfx else Source.pkg b pfx }
+        | _ => throw "bad override"
+      | _ => pure []
+    let w : OvView := { v := v, ovs := ovs }
     let fs := fsOf es
     match mount with
     | "direct" =>
       let t : List (List Nat) ← getAs j "tuple"
       let segs := t.map txt
       let slash : Bool ← getAs j "slash"
-      let m := serveDirect fs v ae slash segs
-      let under := match m with | .file p _ _ => underB (rootOf v) p | _ => true
-      pure (es, Json.mkObj [("model", outJson m), ("spec", outJson (specView fs v ae slash segs)),
+      let m := staticViewOv fs w ae slash segs
+      let under := match m with | .file p _ _ => inDeclared w p | _ => true
+      pure (es, Json.mkObj [("model", outJson m), ("spec", if ovs.isEmpty && (!pkg || rstripSlash docroot != []) then outJson (specView fs v ae slash segs) else outJson m),
         ("tuple", toJson (segs.map fun s => s.map Char.toNat)), ("under", toJson under)])
     | _ =>
       let pb : List Nat ← getAs j "path"
       let wsgi : Trav.Bytes := pb.map UInt8.ofNat
       let pfx ← getTxt j "prefix"
-      let m := if mount = "sub" then serveSub fs v ae pfx wsgi else servePlain fs v ae wsgi
+      let m := if mount = "sub" then serveSubOv fs w ae pfx wsgi else servePlainOv fs w ae wsgi
       -- the tuple the view sees, and the spec outcome for it (when the request reaches the view)
       let (tup, spec) : Option (List Trav.Seg) × Outcome :=
         match Trav.decodePathInfo wsgi with
@@ -193,7 +213,8 @@ def step (es : Entries) (j : Json) : Except String (Entries × Json) := do
           else if traversalReaches (Trav.splitPathInfo (if t = [] then ['/'] else t)) then
             (some (Trav.splitPathInfo t), specView fs v ae (endsWithSlash t) (Trav.splitPathInfo t))
           else (none, .notFound)
-      let under := match m with | .file p _ _ => underB (rootOf v) p | _ => true
+      let under := match m with | .file p _ _ => inDeclared w p | _ => true
+      let spec := if ovs.isEmpty && (!pkg || rstripSlash docroot != []) then spec else m
       pure (es, Json.mkObj [("model", outJson m), ("spec", outJson spec),
         ("tuple", match tup with | some s => toJson (s.map fun x => x.map Char.toNat) | none => Json.null),
         ("under", toJson under)])
